@@ -27,6 +27,7 @@ type c12Txn struct {
 	CallID string // "c12-"+ID unless it is the CANCEL of another transaction
 	Wire   string // the request as sent (a CANCEL copies its Via, From, To, Call-ID)
 	Cancel bool
+	Rport  bool // the top Via asked for rport
 }
 
 // ---- a minute later (unit engine) -------------------------------------------------
@@ -169,7 +170,7 @@ func c12AMinuteLater(rt *rapid.T) string {
 
 func TestC12(t *testing.T) {
 	V.Rule("lab: rapid state machines over 2-8 simultaneous client connections to one TCP listener, all from one loopback address (one address of the process's private block stands in for 127.0.0.1), each request announcing a Via sent-by drawn from a set of 1-3 values that are shared between connections (equal sent-by on different connections is the common case), with or without rport, pairwise distinct branches that share a stem and end in a small running number (one is often a prefix of another), listen entries with received-support on and off; requests go to UDP and TCP backends; the backends answer outstanding transactions in any order across connections, 1xx (0-3 per transaction) before the single final response, INVITE and non-INVITE, CANCEL of a pending INVITE (same branch, answered independently); unrelated UDP traffic and new connections in between; now and then a sent-by that names the real source port of another live connection, and once per history up to 160 complete transactions on the connections while others stay pending; on a separate instance a user agent connection and the connection to a TCP backend carry a provisional response, stay idle for 5.3 s (thorough 7.5 s) and must then still carry the final response. unit: a Proxy object driven synchronously through the product's own steps with 2-8 scripted connections sharing a sent-by, the once-a-minute sweep of the transport table forced between requests and between answers (the sweep clock moved back by 61 s), answers in a drawn order. Oracle: every response is read on the connection whose request it answers and on no other connection; nothing is dialled to the announced sent-by address or to (client address, sent-by port), where the harness listens. non-trivial = history with >= 2 connections sharing a sent-by and >= 2 transactions open at once answered in another order than sent; distinct by history")
-	V.Require("unit: the transport table swept while transactions were pending", "CANCEL with the INVITE's branch, both answered", ">= 70 transactions completed while others stayed pending", "sent-by names the source port of another live connection", "response after a connection stayed idle for > 5 s", "a branch is a prefix of another branch of the history", "connections share a sent-by", ">=2 transactions open at once", "answered out of order", "provisional before final", "non-INVITE with provisional", "support:off", "support:on", "tcp backend", "udp backend")
+	V.Require("a client went away with a transaction pending; the others are served as before", "udp backend answers from another socket than it listens on", "unit: the transport table swept while transactions were pending", "CANCEL with the INVITE's branch, both answered", ">= 70 transactions completed while others stayed pending", "sent-by names the source port of another live connection", "response after a connection stayed idle for > 5 s", "a branch is a prefix of another branch of the history", "connections share a sent-by", ">=2 transactions open at once", "answered out of order", "provisional before final", "non-INVITE with provisional", "support:off", "support:on", "tcp backend", "udp backend")
 	rcheck(t, "a-minute-later", V.N(300, 3000), func(rt *rapid.T) {
 		V.Class("unit: the transport table swept while transactions were pending")
 		if f := c12AMinuteLater(rt); f != "" {
@@ -228,6 +229,8 @@ func TestC12(t *testing.T) {
 			// let the proxy notice the closed connections before the next history
 			s.in.settle(func(b []byte) error { return s.uas[3].sendUDP(l.Addr, l.UDPPort, b) }, 0)
 		}()
+		gone := map[int]bool{} // connections reset by their client
+		abandoned := 0
 		var outstanding []*c12Txn
 		hist := []string{fmt.Sprintf("listen entry %d (received-support %v)", entry, stamp)}
 		maxOpen, outOfOrder, shared := 0, false, false
@@ -250,6 +253,9 @@ func TestC12(t *testing.T) {
 					rt.Skip("enough outstanding")
 				}
 				ci := rapid.IntRange(0, len(conns)-1).Draw(rt, "conn")
+				for gone[ci] {
+					ci = (ci + 1) % len(conns)
+				}
 				c := conns[ci]
 				tx := &c12Txn{ID: s.nextID("x"), Conn: ci, Method: rapid.SampledFrom([]string{"INVITE", "OPTIONS", "MESSAGE", "REGISTER", "INFO"}).Draw(rt, "method")}
 				// branches of one history share a stem and end in a small running number:
@@ -289,6 +295,17 @@ func TestC12(t *testing.T) {
 				if rapid.Bool().Draw(rt, "rport") {
 					rport = ";rport"
 				}
+				if len(outstanding) > 0 && rapid.IntRange(0, 2).Draw(rt, "announce what a pending transaction of another connection announces") == 0 {
+					// (several clients behind one address that write the same sent-by, rport or not)
+					o := outstanding[rapid.IntRange(0, len(outstanding)-1).Draw(rt, "like which")]
+					if o.Conn != ci {
+						tx.SentBy = o.SentBy
+						rport = map[bool]string{true: ";rport", false: ""}[o.Rport]
+						connSentBy[ci][tx.SentBy] = true
+						shared = true
+					}
+				}
+				tx.Rport = rport != ""
 				wire := []byte(fmt.Sprintf("%s sip:svc.test SIP/2.0\r\nVia: SIP/2.0/TCP %s;branch=z9hG4bK%s%s\r\nFrom: <sip:c%d@client.example>;tag=f%s\r\nTo: <sip:svc@nomatch.example>\r\nCall-ID: c12-%s\r\nCSeq: 1 %s\r\nContent-Length: 0\r\n\r\n",
 					tx.Method, tx.SentBy, branch, rport, ci, tx.ID, tx.ID, tx.Method))
 				tx.CallID, tx.Wire = "c12-"+tx.ID, string(wire)
@@ -347,6 +364,17 @@ func TestC12(t *testing.T) {
 						failf(rt, "top Via at the backend unreadable: %v", err)
 					}
 					ep := tx.At.ep
+					if rapid.IntRange(0, 4).Draw(rt, "the udp backend answers from another socket") == 0 {
+						// (a backend that sends from a socket other than the one it listens on:
+						// the response is relayed by its Via all the same)
+						ep2, err := s.in.hub.udpEP("backend-sending-socket", ep.ip, 5081)
+						if err != nil {
+							V.HarnessError(rt, "bind: %v", err)
+						}
+						ep = ep2
+						hist = append(hist, "(sent from port 5081 of the backend)")
+						V.Class("udp backend answers from another socket than it listens on")
+					}
 					send = func(b []byte) error { return ep.sendUDP(pv.Host, pv.Port, b) }
 				}
 				s.in.expect(resp)
@@ -377,6 +405,82 @@ func TestC12(t *testing.T) {
 				if code >= 200 {
 					outstanding = append(outstanding[:k], outstanding[k+1:]...)
 				}
+			},
+			"clientAbandons": func(rt *rapid.T) {
+				// A client goes away with a transaction pending - its connection is reset -
+				// and the backend answers that transaction all the same. Where that answer
+				// ends up is not judged (the connection is gone; the sent-by address does
+				// not listen), except that it is not another client's connection; the
+				// transactions pending on the other connections are judged as before.
+				var cand []int
+				for k, o := range outstanding {
+					alive := 0
+					for ci := range conns {
+						if !gone[ci] {
+							alive++
+						}
+					}
+					if !gone[o.Conn] && alive >= 2 && o.At.tcp == nil {
+						cand = append(cand, k)
+					}
+				}
+				// (preferably one whose announced address a pending transaction of another connection shares)
+				var pref []int
+				for _, k := range cand {
+					for _, o := range outstanding {
+						if o.Conn != outstanding[k].Conn && !gone[o.Conn] && o.SentBy == outstanding[k].SentBy && o.Rport == outstanding[k].Rport {
+							pref = append(pref, k)
+							break
+						}
+					}
+				}
+				if len(pref) > 0 {
+					cand = pref
+				}
+				if len(cand) == 0 || abandoned >= 2 {
+					rt.Skip("nothing to abandon")
+				}
+				k := cand[rapid.IntRange(0, len(cand)-1).Draw(rt, "which")]
+				tx := outstanding[k]
+				gone[tx.Conn] = true
+				abandoned++
+				conns[tx.Conn].close()
+				time.Sleep(5 * time.Millisecond)
+				hist = append(hist, fmt.Sprintf("c%d is reset by its client with %s pending; the backend answers %s with 200", tx.Conn, tx.ID, tx.ID))
+				V.Journal(t.Name()+"/histories", hist)
+				resp := buildResponse(tx.At.msg, 200, "Answer", "t"+tx.ID, "")
+				pv, err := rVia(tx.At.msg.Entries(hVia)[0])
+				if err != nil {
+					failf(rt, "top Via at the backend unreadable: %v", err)
+				}
+				ep := tx.At.ep
+				send := func(b []byte) error { return ep.sendUDP(pv.Host, pv.Port, b) }
+				s.in.expect(resp)
+				if err := send(resp); err != nil {
+					V.HarnessError(rt, "backend send: %v", err)
+				}
+				rs, err := s.in.settle(send, 0)
+				if _, lost := err.(labLost); lost {
+					failf(rt, "%v\nhistory: %v", err, hist)
+				} else if err != nil {
+					V.HarnessError(rt, "%v", err)
+				}
+				for _, r := range labMessages(rs) {
+					for ci, c := range conns {
+						if r.tcp == c && ci != tx.Conn {
+							failf(rt, "the response to %s, whose connection c%d is gone, was written to another client's connection c%d\nhistory: %v", tx.ID, tx.Conn, ci, hist)
+						}
+					}
+				}
+				// every transaction that was pending on the lost connection is lost with it
+				var keep []*c12Txn
+				for _, o := range outstanding {
+					if o.Conn != tx.Conn {
+						keep = append(keep, o)
+					}
+				}
+				outstanding = keep
+				V.Class("a client went away with a transaction pending; the others are served as before")
 			},
 			"clientCancels": func(rt *rapid.T) {
 				// RFC 3261 9.1: the CANCEL of a pending INVITE carries the INVITE's
@@ -431,6 +535,9 @@ func TestC12(t *testing.T) {
 				V.Journal(t.Name()+"/histories", hist)
 				for i := 0; i < n; i++ {
 					ci := i % len(conns)
+					for gone[ci] {
+						ci = (ci + 1) % len(conns)
+					}
 					c := conns[ci]
 					id := s.nextID("m")
 					wire := []byte(fmt.Sprintf("OPTIONS sip:svc.test SIP/2.0\r\nVia: SIP/2.0/TCP %s;branch=z9hG4bK%s\r\nFrom: <sip:c%d@client.example>;tag=f%s\r\nTo: <sip:svc@nomatch.example>\r\nCall-ID: c12-%s\r\nCSeq: 1 OPTIONS\r\nContent-Length: 0\r\n\r\n", sentBys[0], id, ci, id, id))
